@@ -185,6 +185,20 @@ def run(ctx):
         names, cl, muts, point_of, cluster_of = inputs(3, clustered)
         jobs.append({"n_points": 3, "n_samples": ns, "names": names, "clusters": cl, "chains": {0: [(-1 - j, sp, ("plain", 0)) for j, sp in enumerate(pool)]}, "cmds": [("cons", 0.5, "counts"), ("cons", 0.5, "joint-likelihood")], "outlier_prob": 0.1})
         meta.append({"kind": "multi", "spec": tuple(pool), "n": 3, "ns": ns, "clustered": clustered, "muts": muts, "point_of": point_of, "cluster_of": cluster_of, "names": names, "cl": cl})
+    # multi-entry traces for the map (both modes) and topology commands: the same topology visited several times under
+    # different node numberings and with different scores, several topologies per trace, realistic (thinned) "iter" fields
+    specs4 = [s for s in all_specs(range(4), outliers=True) if len(spec_nodes(s)) >= 3]
+    for _ in range(60 if ctx.quick else 600):
+        base = [ctx.rng.choice(specs4) for _ in range(ctx.rng.randint(1, 3))]
+        entries = []
+        for j in range(ctx.rng.randint(3, 6)):
+            sp = ctx.rng.choice(base)
+            entries.append((-10 + j if ctx.rng.random() < 0.7 else -10 - j, sp, ("perm", ctx.rng.randrange(10**6)) if ctx.rng.random() < 0.7 else ("plain", 0)))
+        clustered = ctx.rng.random() < 0.5
+        ns = ctx.rng.randint(1, 2)
+        names, cl, muts, point_of, cluster_of = inputs(4, clustered)
+        jobs.append({"n_points": 4, "n_samples": ns, "names": names, "clusters": cl, "chains": {0: entries}, "cmds": [("map", "joint-likelihood"), ("map", "frequency"), ("topo", "all")], "outlier_prob": 0.1})
+        meta.append({"kind": "multi-map", "spec": tuple(sp for _, sp, _ in entries), "n": 4, "ns": ns, "clustered": clustered, "muts": muts, "point_of": point_of, "cluster_of": cluster_of, "names": names, "cl": cl})
     ctx.log("%d trace files" % len(jobs))
     outs = tf.run_jobs(jobs, workers=4)
     ctx.log("commands done")
